@@ -19,7 +19,7 @@ LEVEL_TEXT = ('every table of <=3 columns over 11 column kinds and <=3 rows over
               'back on the real code and compared bit-exactly with the input')
 LEVEL_NOTE = ('holds inside the enumerated alphabets only (no claim for >3 columns/rows, floats outside the alphabet, strings >8 bytes, header '
               'values with leading/trailing blanks); trusted: numpy, astropy.table, the comparison code in mc/props/_yanny.py')
-RULE = ('L1: each column kind alone / before an int anchor / after a string, rows 0..3, ALL cell tuples over the kind alphabet; L1b: all ordered pairs of scalar '
+RULE = ('L6: 1..5 long-string columns (50-60 characters with blanks/tabs, rows up to ~330 characters) x all cell assignments, and 8..48-column tables; L1: each column kind alone / before an int anchor / after a string, rows 0..3, ALL cell tuples over the kind alphabet; L1b: all ordered pairs of scalar '
         'kinds x all cell pairs; L2: all ordered tuples of 1..3 kinds x rows 0..2 x all assignments of 2 representative cells; L3: all ordered '
         'lists of 1..3 of 4 tables x all ordered struct-name selections from 5 colliding names x all ordered headers of <=3 of 6 values; '
         'L4: Table writer/reader (function and registry; bytes and str columns; meta); L5: 9 unsupported dtypes in 3 positions must raise. '
@@ -47,6 +47,7 @@ REP_TABLES = [
     {'cols': [['c0', 'S'], ['c1', 'i4[2]']], 'rows': [['a b', [1, -2147483648]]]},
     {'cols': [['e0', 'enum'], ['c1', 'f4']], 'rows': [['GREEN_X', float(np.float32(0.1))], ['B', float('nan')]]},
     {'cols': [['c0', 'S[2]'], ['c1', 'i2']], 'rows': []},
+    {'cols': [['e0', 'i2'], ['c1', 'f8[2]']], 'rows': [[7, [0.5, -0.0]]]},     # numeric column named like the enum column elsewhere
 ]
 REFUSED = ['u1', 'u2', 'u4', 'u8', 'i1', 'b1', 'f2', 'c8', 'c16']
 
@@ -69,6 +70,8 @@ def _cmp_table(where, spec, rec, strict_width, bad):
     if strict_width:
         w = Y.string_widths(rec)
         for n, k in spec['cols']:
+            if Y.base_kind(k) == 'L' and w.get(n) != Y.LONGW:
+                bad.append((where + ':string-width', 'column %s width %s expected %d' % (n, w.get(n), Y.LONGW)))
             if Y.base_kind(k) == 'S' and w.get(n) != Y.STRW:
                 bad.append((where + ':string-width', 'column %s width %s expected %d' % (n, w.get(n), Y.STRW)))
     if len(arows) != len(erows):
@@ -79,7 +82,7 @@ def _cmp_table(where, spec, rec, strict_width, bad):
             cls = 'cell'
             for (n, k), av, evv in zip(spec['cols'], a, e):
                 if av != evv:
-                    cls = {'S': 'string', 'enum': 'enum', 'f4': 'float', 'f8': 'float'}.get(Y.base_kind(k), 'int')
+                    cls = {'S': 'string', 'L': 'string', 'enum': 'enum', 'f4': 'float', 'f8': 'float'}.get(Y.base_kind(k), 'int')
                     if cls == 'string' and '{{}}' in ''.join(evv if isinstance(evv, tuple) else (evv,)):
                         cls = 'string:contains-{{}}'
                     break
@@ -242,10 +245,10 @@ def tasks(tier):
                 maxr = 2
             for r in range(0, maxr + 1):
                 if r >= 2 and n > 30:
-                    for first in range(n):
-                        if not T and pos != 'single' and first % 3:
-                            continue   # quick: every third first cell for the two non-single layouts
-                        t.append({'layer': 'L1', 'kind': kind, 'pos': pos, 'rows': r, 'first': first})
+                    firsts = [f for f in range(n) if T or pos == 'single' or f % 3 == 0]
+                    # quick: every third first cell for the two non-single layouts
+                    for c in range(0, len(firsts), 8):
+                        t.append({'layer': 'L1', 'kind': kind, 'pos': pos, 'rows': r, 'first': firsts[c:c + 8]})
                 else:
                     t.append({'layer': 'L1', 'kind': kind, 'pos': pos, 'rows': r, 'first': None})
     scal = [k for k in Y.KINDS if not Y.is_array(k)]
@@ -259,8 +262,11 @@ def tasks(tier):
                 for k2 in Y.KINDS:
                     t.append({'layer': 'L2', 'ncol': 3, 'first': [k, k2]})
     for ntab in (1, 2, 3):
-        for sel in itertools.permutations(range(4), ntab):
+        for sel in itertools.permutations(range(len(REP_TABLES)), ntab):
             t.append({'layer': 'L3', 'sel': list(sel), 'maxhdr': 3 if T else 1})
+    for ncol in (1, 2, 3, 4, 5) if T else (1, 2, 3, 4):
+        t.append({'layer': 'L6', 'ncol': ncol})
+    t.append({'layer': 'L6wide'})
     for ustr in (False, True):
         for entry in ('tablefn', 'tableio'):
             t.append({'layer': 'L4', 'entry': entry, 'ustr': ustr, 'ncol': 1})
@@ -299,7 +305,7 @@ def run_task(task):
             if task['first'] is None:
                 it = itertools.product(cells, repeat=r)
             else:
-                it = ((cells[task['first']],) + rest for rest in itertools.product(cells, repeat=r - 1))
+                it = ((cells[f],) + rest for f in task['first'] for rest in itertools.product(cells, repeat=r - 1))
             for combo in it:
                 rows = [wrap_row(pos, c) for c in combo]
                 _do(acc, {'entry': 'ndarray', 'tables': [{'name': 'abc', 'cols': cols, 'rows': rows}]}, d)
@@ -330,6 +336,25 @@ def run_task(task):
                 for hdr in hdrs:
                     tables = [dict(REP_TABLES[s], name=nm) for s, nm in zip(sel, names)]
                     _do(acc, {'entry': 'ndarray', 'tables': tables, 'hdr': hdr or None, 'aslist': True}, d)
+        elif L == 'L6':
+            # long rows: n long-string columns (blanks, tabs, empty) and an int anchor; rows of 60..330 characters
+            ncol = task['ncol']
+            cols = [['c%d' % i, 'L'] for i in range(ncol)] + [['z', 'i4']]
+            for r in (1, 2):
+                for assign in itertools.product(range(len(Y.LONG_CELLS)), repeat=ncol):
+                    rows = [[Y.LONG_CELLS[(a + i) % len(Y.LONG_CELLS)] for a in assign] + [i] for i in range(r)]
+                    for entry in ('ndarray', 'tablefn'):
+                        _do(acc, {'entry': entry, 'ustr': False, 'hdr': None,
+                                  'tables': [{'name': 'abc', 'cols': cols, 'rows': rows}]}, d)
+        elif L == 'L6wide':
+            # many columns: 8..48 numeric/string columns in one row
+            for ncol in (8, 16, 24, 32, 48):
+                for pattern in (['f8'], ['i8', 'f8'], ['S', 'f8', 'i4[2]'], ['f4[2]', 'S[2]']):
+                    kinds = [pattern[i % len(pattern)] for i in range(ncol)]
+                    cols = [['c%d' % i, k] for i, k in enumerate(kinds)]
+                    for r in (0, 1, 2):
+                        rows = [[Y.rep_cells(k)[(i + j) % 2] for j, k in enumerate(kinds)] for i in range(r)]
+                        _do(acc, {'entry': 'ndarray', 'tables': [{'name': 'abc', 'cols': cols, 'rows': rows}]}, d)
         elif L == 'L4':
             ncol = task['ncol']
             first = [task['first']] if task.get('first') else []
